@@ -121,7 +121,158 @@ def legal(steps, d):
     return True
 
 
+def init_layout(init, memtype, nph, word_bits, nb, nr, nc, mapping):
+    """Independent reading of where the init image's words sit: (rank, bank, row, col) -> model word."""
+    cols_per_word = (1 if memtype == "SDR" else 2) * nph
+    words_per_row = nc // cols_per_word
+
+    def init_word_at(lin):
+        if word_bits >= 32:
+            v = 0
+            for j in range(word_bits // 32):
+                i = lin * (word_bits // 32) + j
+                v |= (init[i] if i < len(init) else 0) << (32 * j)
+            return v
+        per = 32 // word_bits
+        i, sub = divmod(lin, per)
+        x = init[i] if i < len(init) else 0
+        return (x >> (sub * word_bits)) & ((1 << word_bits) - 1)
+
+    def default_fn(key):
+        rank, bank, row, col = key
+        cw = col // cols_per_word
+        if mapping == "ROW_BANK_COL":
+            lin = (row * nb + bank) * words_per_row + cw
+        else:
+            lin = (bank * nr + row) * words_per_row + cw
+        return init_word_at(lin) if init else 0
+    return default_fn
+
+
+def run_ctrl(scn):
+    """The real controller (whole LiteDRAMCore) generates the DFI trace: user masters -> crossbar -> controller -> bundled model, with
+    DramRef shadowing the model's DFI bus passively, and the user-visible read data checked end to end."""
+    from ..corebench import CoreBench
+    from ..agents import NativeMaster, word_of
+    core = scn["core"]
+    tb = CoreBench(core)
+    sim = tb.sim
+    viol = Violations(sim, cap=8)
+    model = tb.dut.phy
+    ps = tb.phy_settings
+    g = tb.geom
+    pm = core["phy_model"]
+    dram = DramRef(sim, model.dfi, tb.dram_cfg(), viol, amap=None, datasheet=None, active=False)
+    word_bits = ps.dfi_databits * ps.nphases
+    nb, nr, nc = 1 << g.bankbits, 1 << g.rowbits, 1 << g.colbits
+    default_fn = init_layout(list(pm.get("init") or []), ps.memtype, ps.nphases, word_bits, nb, nr, nc, pm.get("mapping", "ROW_BANK_COL"))
+    dram.default_fn = default_fn
+    amap = tb.amap
+    nbytes = word_bits // 8
+    full = (1 << nbytes) - 1
+    ref = {}            # user word address -> expected word (overlay of the bytes written on the init word)
+    stats = {"cmds": 0, "reads": 0, "writes": 0, "masked_writes": 0, "reads_of_init": 0, "compared": 0, "e2e_reads_checked": 0,
+             "refreshes": 0, "auto_precharges": 0, "acts": 0}
+    masters = []
+
+    def cur(a):
+        v = ref.get(a)
+        return default_fn(amap.fwd_c(a)) if v is None else v
+
+    def mk(i, port, ops):
+        exp = []
+
+        def on_cmd(op):
+            a = op["addr"] & ((1 << amap.aw) - 1)
+            stats["cmds"] += 1
+            sim.ev("cmd", i, op["id"], op["we"], a)
+            if op["we"]:
+                stats["writes"] += 1
+                sel = op.get("sel", full)
+                if sel != full:
+                    stats["masked_writes"] += 1
+                old, data, v = cur(a), word_of(op["id"], nbytes), 0
+                for b in range(nbytes):
+                    src = data if (sel >> b) & 1 else old
+                    v |= src & (0xFF << (8 * b))
+                ref[a] = v
+            else:
+                stats["reads"] += 1
+                if a not in ref:
+                    stats["reads_of_init"] += 1
+                exp.append((op["id"], a, cur(a)))
+        got = [0]
+
+        def on_rdata(data):
+            k = got[0]
+            got[0] += 1
+            sim.ev("rd", i, k, data)
+            if k >= len(exp):
+                viol.add("c19.e2e_spurious", "port %d: read data 0x%x with no read outstanding" % (i, data))
+                return
+            oid, a, v = exp[k]
+            stats["e2e_reads_checked"] += 1
+            if data != v:
+                viol.add("c19.e2e_read", "port %d read op %d of word 0x%x through controller + bundled model returned 0x%x, expected 0x%x"
+                         % (i, oid, a, data, v))
+        m = NativeMaster(sim, port, ops, name="m%d" % i, on_cmd=on_cmd, on_rdata=on_rdata)
+        m.exp, m.got = exp, got
+        sim.add_agent("sys", m)
+        masters.append(m)
+    # several ports writing the same word concurrently would make the expected value depend on the arbitration order; the
+    # crossbar-order bookkeeping belongs to C01 - here each port owns its words (address sets are disjoint by construction)
+    for i, (port, pc) in enumerate(zip(tb.ports, scn["ports"])):
+        mk(i, port, pc["ops"])
+    cap = scn.get("limits", {}).get("max_cycles", 20000)
+    cyc = 0
+    quiet = None
+    while cyc < cap:
+        sim.step()
+        cyc = sim.cycles["sys"]
+        if all(m.idle() for m in masters):
+            if quiet is None:
+                quiet = cyc
+            elif cyc - quiet > ps.read_latency + ps.write_latency + 24:
+                break
+        else:
+            quiet = None
+    if not all(m.idle() for m in masters):
+        viol.add("c19.e2e_hang", "controller + bundled model did not drain after %d cycles" % cyc)
+    stats["compared"] = dram.ncompared
+    from ..dramref import ACT, REF
+    stats["refreshes"], stats["acts"], stats["auto_precharges"] = dram.ncmd[REF], dram.ncmd[ACT], dram.nauto
+    # final image: model memories vs reference store, and vs the user-level expectation
+    mems = sorted(sim.memories.items(), key=lambda kv: kv[0].duid)
+    cols_per_word = (1 if ps.memtype == "SDR" else 2) * ps.nphases
+    if len(mems) == nb and not viol:
+        for (rank, bank, row, col), w in sorted(dram.store.items()):
+            if row < 0:
+                continue
+            idx = (row * nc + col) // cols_per_word
+            arr = mems[bank][1]
+            if idx < len(arr) and sim.get(arr[idx]) != w:
+                viol.add("c19.final_image", "model bank %d word %d (row %d col %d) holds 0x%x, independent reference 0x%x"
+                         % (bank, idx, row, col, sim.get(arr[idx]), w))
+                break
+        for a, v in sorted(ref.items()):
+            rank, bank, row, col = amap.fwd_c(a)
+            idx = (row * nc + col) // cols_per_word
+            arr = mems[bank][1]
+            if idx < len(arr) and sim.get(arr[idx]) != v:
+                viol.add("c19.final_image", "model bank %d word %d holds 0x%x after the run, the user-level expectation for word 0x%x is 0x%x"
+                         % (bank, idx, sim.get(arr[idx]), a, v))
+                break
+    vs = [v for v in viol.v if v["oracle"].startswith("c19")]
+    return {"violations": vs, "other_violations": [v for v in viol.v if not v["oracle"].startswith("c19")],
+            "stats": stats, "cycles": cyc, "sim_ps": sim.now, "digest": sim.digest(),
+            "nontrivial": dram.ncompared >= 2, "states": ["ctrl %s p%d" % (ps.memtype, ps.nphases)],
+            "summary": {"variant": "ctrl", "memtype": ps.memtype, "nphases": ps.nphases, "ports": len(masters),
+                        "reads_compared": dram.ncompared, "mapping": pm.get("mapping")}}
+
+
 def run(scn):
+    if scn.get("variant") == "ctrl":
+        return run_ctrl(scn)
     d = scn["dut"]
     if not legal(scn["steps"], d):
         # not a legal trace (only reachable through shrinking): nothing is claimed about it
@@ -201,6 +352,8 @@ def run(scn):
                 stats["reads"] += 1
             if c["k"] == "ACT":
                 stats["acts"] += 1
+                if any(x["k"] == "PRE" and not x.get("desel") for x in st["cmds"]):
+                    stats["act_and_pre_same_cycle"] += 1
             if c["k"] == "PRE":
                 stats["pres"] += 1
         cyc += 1
@@ -256,7 +409,54 @@ def run(scn):
             "summary": {"dut": {k: v for k, v in d.items() if k != "init"}, "steps": len(steps), "reads_compared": dram.ncompared}}
 
 
+def gen_ctrl(rng, tier):
+    from .. import coregen
+    bankbits = rng.choice([1, 2, 3])
+    rowbits = rng.choice([3, 4, 5])
+    colbits = rng.choice([6, 7, 8, 9, 10])
+    while bankbits + rowbits + colbits > 14 and (rowbits > 3 or bankbits > 1):
+        # every model word becomes a signal of the simulation: keep the device at a few thousand words
+        if rowbits > 3:
+            rowbits -= 1
+        else:
+            bankbits -= 1
+    core, info = coregen.gen_core(rng, lib=False, nranks=1, nports=rng.choice([1, 1, 2, 3]), geom=(bankbits, rowbits, colbits),
+                                  model_phases=True, zqcs=False)
+    memtype, nph = info["memtype"], info["nphases"]
+    word_bits = info["data_bytes"] * 8
+    pm = {"we_granularity": rng.choice([8, 8, 0]), "mapping": rng.choice(["ROW_BANK_COL", "BANK_ROW_COL"])}
+    if rng.random() < 0.7:
+        cols_per_word = (1 if memtype == "SDR" else 2) * nph
+        total_words = (1 << bankbits) * (1 << rowbits) * ((1 << colbits) // cols_per_word)
+        n32 = max(1, total_words * word_bits // 32)
+        pm["init"] = [rng.getrandbits(32) for _ in range(rng.choice([n32, n32, max(1, n32 // 3), max(1, n32 - 5)]))]
+    core["phy_model"] = pm
+    amap = coregen.amap_of(core, info)
+    hot = coregen.gen_hot(rng, info, 1)
+    nports = len(core["ports"])
+    n = rng.choice([6, 20, 60]) if tier == "quick" else rng.choice([20, 80, 250])
+    ports = []
+    total = 0
+    for i in range(nports):
+        ops = coregen.gen_port_ops(rng, amap, info, n, hot, id0=1 + i * 100000, sel_mode="full" if not pm["we_granularity"] else None)
+        # each port owns the addresses congruent to its index (so the expected data does not depend on arbitration order)
+        for o in ops:
+            rank, bank, row, col = amap.fwd(o["addr"])
+            colw = col >> info["align"]
+            ncolw = 1 << (info["colbits"] - info["align"])
+            colw = (colw - colw % nports + i) % ncolw if ncolw >= nports else colw
+            o["addr"] = amap.inv(rank, bank, row, colw << info["align"])
+        if nports > (1 << (info["colbits"] - info["align"])):
+            ops = ops if i == 0 else []
+        ports.append({"ops": ops})
+        total += len(ops)
+    return {"variant": "ctrl", "core": core, "ports": ports,
+            "limits": {"max_cycles": 4000 + 150 * total + sum(o.get("delay", 0) for p_ in ports for o in p_["ops"])}}
+
+
 def gen(rng, tier, index):
+    if rng.random() < 0.2:
+        return gen_ctrl(rng, tier)
     memtype = rng.choice(["SDR", "DDR", "DDR2", "DDR3", "DDR3", "DDR4", "LPDDR"])
     # phase counts the model is written for (phy/model.py: sdram_module_nphases)
     nph = {"SDR": 1, "DDR": 2, "LPDDR": 2, "DDR2": 2, "DDR3": 4, "DDR4": 4}[memtype]
